@@ -1003,6 +1003,11 @@ def call_builtin(eng, st, name, args, kwargs, node):
       return str_to_int(eng, st, a, args[1] if len(args) > 1 else 10, node)
     if isinstance(a, float):
       return int(a)
+    if isinstance(a, V.SqrtV):
+      eng.used_theories.add("int(math.sqrt(x)) for an int x: r >= 0; x >= 1 ==> 1 <= r <= x (holds whatever the rounding)")
+      r = z3.Int(V.fresh_name("int_sqrt"))
+      st.assume(r >= 0, z3.Implies(a.arg >= 1, z3.And(r >= 1, r <= a.arg)), z3.Implies(a.arg <= 0, r == 0))
+      return r
     if isinstance(a, Opaque):
       # int() of an unmodelled (float) value: some integer -- havocked, listed as abstracted
       eng.abstracted.add(f"int(<{a.why}>) at L{getattr(node, 'lineno', 0)} havocked to an arbitrary int")
@@ -2204,6 +2209,9 @@ def call_lib(eng, st, name, args, kwargs, node):
     for x in seq[1]:
       r = r * ni(x)
     return r
+  if name == "math.sqrt" and args and is_int_like(args[0]) and not isinstance(args[0], int):
+    eng.abstracted.add(f"math.sqrt(<int>) at L{getattr(node, 'lineno', 0)} (float; only int(math.sqrt(x)) is given facts)")
+    return V.SqrtV(to_z3(args[0]))
   if name.startswith("math."):
     import math
     if all(isinstance(a, (int, float)) and not isinstance(a, bool) for a in args):
